@@ -1,9 +1,117 @@
-use fips204_verif::refmodel;
+//! vcheck: runs one property in the profile this binary was built with and writes a JSON report.
+//!
+//!   vcheck selftest
+//!   vcheck run <ID> --tier quick|thorough --seed N --report PATH
+//!   vcheck replay <ID> --file REPLAY.json --report PATH
+//!
+//! exit 0: property held on everything explored; 1: violation(s) (listed in the report);
+//! 2: the machinery could not decide (reference self-test failure, harness abort).
+
+use fips204_verif::engine::{install_panic_hook, profile_name, Ctx, Report, Tier};
+use fips204_verif::{props, refmodel};
+use serde_json::Value;
+use std::time::Instant;
+
+fn arg(args: &[String], name: &str) -> Option<String> {
+    args.iter().position(|a| a == name).and_then(|i| args.get(i + 1).cloned())
+}
+
 fn main() {
+    let args: Vec<String> = std::env::args().collect();
     let root = std::env::var("VERIF_ROOT").unwrap_or_else(|_| "/verif".to_string());
-    let t = std::time::Instant::now();
-    match refmodel::selftest::run(&root, true) {
-        Ok(r) => println!("selftest ok {r:?} in {:?}", t.elapsed()),
-        Err(e) => { eprintln!("selftest FAILED: {e}"); std::process::exit(2); }
+    let cmd = args.get(1).map(String::as_str).unwrap_or("");
+    if let Ok(t) = std::env::var("VERIF_THREADS") {
+        if let Ok(n) = t.parse::<usize>() {
+            rayon::ThreadPoolBuilder::new().num_threads(n).build_global().expect("thread pool");
+        }
     }
+    install_panic_hook();
+    let t0 = Instant::now();
+    let full_selftest = cmd == "selftest";
+    match refmodel::selftest::run(&root, full_selftest) {
+        Ok(r) => {
+            if full_selftest {
+                println!("reference self-test ok: {r:?} ({:.2}s, profile {})", t0.elapsed().as_secs_f64(), profile_name());
+                return;
+            }
+        }
+        Err(e) => {
+            eprintln!("INCONCLUSIVE: reference self-test failed: {e}");
+            std::process::exit(2);
+        }
+    }
+    let id = args.get(2).cloned().unwrap_or_default();
+    let tier = match arg(&args, "--tier").as_deref() {
+        Some("thorough") => Tier::Thorough,
+        _ => Tier::Quick,
+    };
+    let seed: u64 = arg(&args, "--seed").and_then(|s| s.parse().ok()).unwrap_or(204);
+    let report_path = arg(&args, "--report");
+    let ctx = Ctx { tier, seed, root };
+    let rep: Report = match cmd {
+        "run" => match props::run(&id, &ctx) {
+            Some(r) => r,
+            None => {
+                eprintln!("unknown property {id}");
+                std::process::exit(2);
+            }
+        },
+        "replay" => {
+            let file = arg(&args, "--file").expect("--file");
+            let v: Value = serde_json::from_str(&std::fs::read_to_string(&file).expect("replay file")).expect("replay json");
+            let sub = v["sub"].as_str().unwrap_or("").to_string();
+            let key = v["key"].as_str().unwrap_or("").to_string();
+            let mut ctx = ctx.clone();
+            if let Some(s) = v["seed"].as_u64() {
+                ctx.seed = s;
+            }
+            if v["tier"].as_str() == Some("thorough") {
+                ctx.tier = Tier::Thorough;
+            }
+            match props::replay(&id, &ctx, &sub, &v["case"]) {
+                Some(Ok(())) => Report::new(&id),
+                Some(Err(f)) => {
+                    let mut r = Report::new(&id);
+                    r.violation(&sub, f, v["case"].clone());
+                    r
+                }
+                None => {
+                    // enumerated sub-check: re-run the property deterministically and keep this finding only
+                    let mut r = props::run(&id, &ctx).unwrap_or_else(|| {
+                        eprintln!("unknown property {id}");
+                        std::process::exit(2)
+                    });
+                    r.violations.retain(|x| x.sub == sub && x.key == key);
+                    r
+                }
+            }
+        }
+        _ => {
+            eprintln!("usage: vcheck selftest | run <ID> --tier T --seed N --report P | replay <ID> --file F --report P");
+            std::process::exit(2);
+        }
+    };
+    let wall = t0.elapsed().as_secs_f64();
+    let json = rep.to_json(&ctx, wall);
+    if let Some(p) = report_path {
+        std::fs::write(&p, serde_json::to_string_pretty(&json).expect("json")).expect("write report");
+    }
+    eprintln!(
+        "[{} {} {}] evaluations={} distinct_nontrivial={} violations={} wall={:.1}s",
+        id,
+        profile_name(),
+        if ctx.quick() { "quick" } else { "thorough" },
+        json["evaluations"],
+        json["distinct_nontrivial"],
+        rep.violations.len(),
+        wall
+    );
+    for v in &rep.violations {
+        eprintln!("  violation sub={} key={} :: {}", v.sub, v.key, v.what);
+    }
+    if let Some(why) = &rep.inconclusive {
+        eprintln!("INCONCLUSIVE: {why}");
+        std::process::exit(2);
+    }
+    std::process::exit(if rep.violations.is_empty() { 0 } else { 1 });
 }
